@@ -184,7 +184,13 @@ class RefParser:
                 if d == "define":
                     self.do_define(arg)
                 elif d == "import":
-                    ev.append(("import", self.subst(arg), self.lineno))
+                    pkg = self.subst(arg)
+                    if pkg == "" and self.st.schemaless:
+                        # what a loader does with an import name that
+                        # expands to nothing is not part of the grammar
+                        raise Stop(("unjudged",
+                                    "import name expands to nothing"))
+                    ev.append(("import", pkg, self.lineno))
                 else:
                     target = self.subst(arg)
                     if self.st.schemaless:
